@@ -8,7 +8,7 @@ from props import herd
 
 ASSUMPTIONS = [
     "digestion efficiencies read from the species object (0.6 grass / 0.8 feed in the shipped data); net energy delivered = eff_grass*grass eaten + eff_feed*feed eaten",
-    "fed count when the requirement is not met: |fed - herd * delivered/required| <= 0.5 (the code rounds to whole animals)",
+    "fed count when the requirement is not met: |fed - herd * delivered/required| <= 0.5 (the code rounds to whole animals); the same half-animal allowance applies to 'fed <= herd', 'fed = herd when the requirement is met' and 'starving >= 0' because herds are fractional and a delivery within one float rounding of the requirement takes the rounding branch",
     "priority key recomputed independently: (meat kcal per head + monthly gross feed energy per head) / slaughter hours per head, descending; without a per-head meat table the documented fallback is the approximate feed conversion, descending",
 ]
 
@@ -49,7 +49,7 @@ def check_call(r, where):
     if r["bal"] > 10 * rtol and (r["f1"] > tol or (r["rum"] and r["g1"] > tol)):
         out.append(("requirement_unmet_with_supply_left", "%s: %.6g net still owed with feed %.6g grass %.6g left" % (where, r["bal"], r["f1"], r["g1"])))
     # head counts
-    if fed > herd_n + 1e-9 * max(1.0, herd_n):
+    if fed > herd_n + 0.5 + 1e-9 * max(1.0, herd_n):
         mech = "fed_exceeds_herd"
         if req > 0 and delivered < req and (req - delivered) > 0 and abs(fed - round(delivered / (req - delivered) * herd_n)) <= 0.5 + 1e-9 * herd_n:
             mech = "fed_count_divides_by_remaining_requirement"
@@ -57,7 +57,7 @@ def check_call(r, where):
             mech = "stale_fed_count_when_requirement_zero"
         out.append((mech, "%s: fed %.1f of a herd of %.1f (required %.6g, delivered %.6g)" % (where, fed, herd_n, req, delivered)))
     elif req > 0 and delivered >= req - rtol:
-        if abs(fed - herd_n) > 1e-9 * max(1.0, herd_n):
+        if abs(fed - herd_n) > 0.5 + 1e-9 * max(1.0, herd_n):
             out.append(("fully_fed_herd_not_counted_fed", "%s: requirement met but fed %.1f of %.1f" % (where, fed, herd_n)))
     elif req > 0:
         want = herd_n * delivered / req
@@ -189,7 +189,7 @@ def run_case(case, tier):
     # starving count is the remainder and never negative
     for a in animals:
         sp = np.array(a.population_starving_pre_slaughter, float)
-        if sp.min() < -1e-9 * max(1.0, max(a.population)):
+        if sp.min() < -(0.5 + 1e-9 * max(1.0, max(a.population))):
             mech = "negative_starving_count"
             bad(mech, "%s: starving count %.1f in month %d" % (a.animal_type, sp.min(), int(sp.argmin()) - 1), species=a.animal_type)
     # priority order recomputed independently
